@@ -510,4 +510,6 @@ def _boolean_typed(e):
         return all(_boolean_typed(v) or isinstance(v, ast.Compare) for v in e.values)
     if isinstance(e, ast.UnaryOp) and isinstance(e.op, ast.Not):
         return True
+    if isinstance(e, ast.Compare):
+        return True
     return False
